@@ -303,8 +303,11 @@ def solve_operands_config(h, kind):
         want = np.array([sol[1], x[1], sol[0], x[3]], dtype=object if h.sym_mode else float)
     else:
         # the shape produced by mpc(): (permutation, expansion of the reduced solution); the slave value is T x_master + g
+        # (x is zero where the expansion writes, as in the vector mpc() allocates: adding to it and assigning into it then agree)
+        x = np.array([0 * x[0], x[1], 0 * x[2], 0 * x[3]], dtype=object if h.sym_mode else float)
+        snap = np.array(x, copy=True)
         I = (np.array([2, 0, 3]), lambda r: np.concatenate((r, np.array([2 * r[1] + g]))))
-        want = np.array([x[0] + sol[1], x[1], x[2] + sol[0], x[3] + 2 * sol[1] + g], dtype=object if h.sym_mode else float)
+        want = np.array([sol[1], x[1], sol[0], 2 * sol[1] + g], dtype=object if h.sym_mode else float)
     h.sample(dict(I=kind, history=['solve(A, b, x, I)', 'solve(A, b, x, I) again']))
     y1 = U.solve_linear(A, b, x, I, solver=spy)
     y1_snap = np.array(y1, copy=True)
